@@ -21,6 +21,19 @@ def handle (op : String) (j : Json) : Except String Json := do
         let f := match o.file with | some f => [("file", jstr f)] | none => []
         return Json.mkObj [("location", Json.mkObj (base ++ t ++ f))]
     | _ => return Json.mkObj [("undefined", true)]
+  | "c07.lsprange" =>
+    let row ← getNat j "row"
+    let col ← getNat j "col"
+    let e : Option Pos := match j.getObjVal? "end" with
+      | .ok (Json.arr a) => match a.toList.map (fun x => x.getNat?.toOption) with
+        | [some r, some c] => some { row := r, col := c }
+        | _ => none
+      | _ => none
+    let n := match j.getObjVal? "text" with
+      | .ok (Json.str t) => t.utf8ByteSize     -- Go: len(*item.Location.Text) counts bytes
+      | _ => 0
+    let r := lspRange row col e n
+    return Json.arr #[r.startLine, r.startChar, r.endLine, r.endChar]
   | _ => throw s!"unknown op {op}"
 
 end Driver.C07
